@@ -234,6 +234,193 @@ def enc_codec_out(obs):
 
 
 # --------------------------------------------------------------------------
+# kind 4 + oracle-only variants: meta-less flat binaries, an imec meta file, explicit companions, codec options
+# --------------------------------------------------------------------------
+def imec_meta_text(ns):
+    """The shipped 3A fixture (385 channels, geometry present), with the length patched."""
+    spikeglx, _ = _imports()
+    src = Path(spikeglx.__file__).parent / "tests" / "fixtures" / "sample3A_g0_t0.imec.ap.meta"
+    out = []
+    for line in src.read_text().splitlines():
+        if line.startswith("fileTimeSecs"):
+            line = "fileTimeSecs=%s" % np.format_float_positional(ns / 30000.0, trim="-")
+        if line.startswith("fileSizeBytes"):
+            line = "fileSizeBytes=%d" % (ns * 385 * 2)
+        out.append(line)
+    return "\n".join(out) + "\n"
+
+
+def flat_case(tdir, ncx, n, D, cs):
+    """A flat int16 binary WITHOUT meta file: the size-based guess of Reader(bin); then the documented flat mode
+    Reader(bin, nc=, ns=, fs=, s2v=, nsync=) through compress / decompress, compared with the same on the .cbin."""
+    spikeglx, mtscomp = _imports()
+    d = Path(tdir)
+    d.mkdir(parents=True, exist_ok=True)
+    b = d / "flat.bin"
+    D.tofile(b)
+    obs = {"problems": [], "size": b.stat().st_size}
+    try:
+        r0 = spikeglx.Reader(b)
+        obs["guess"] = [int(r0.nc), int(r0.ns), int(r0.nsync)]
+        if int(r0.nc) * int(r0.ns) * 2 != obs["size"] or r0.fs != 30000:
+            obs["problems"].append(("flat", "guessed shape (%d, %d) does not cover the file, or fs %r" % (r0.ns, r0.nc, r0.fs)))
+        r0.close()
+    except AssertionError:
+        obs["guess"] = [0, 0, 0]
+    nsync = 1 if ncx > 1 else 0
+    kw = dict(nc=ncx, ns=n, fs=FS, s2v=0.5, nsync=nsync)
+    sr = spikeglx.Reader(b, **kw)
+    ref = np.array(sr[:, :])
+    want = D.astype(np.float32) * np.float32(0.5)
+    if nsync:
+        want[:, -1] = D[:, -1]
+    if tuple(sr.shape) != (n, ncx) or not np.array_equal(ref, want):
+        obs["problems"].append(("flat", "flat reader (s2v=0.5, nsync=%d) does not return the scaled samples" % nsync))
+    out = sr.compress_file(keep_original=True, chunk_duration=cs / FS, n_threads=1)
+    sc = spikeglx.Reader(out, **kw)
+    if tuple(sc.shape) != (n, ncx) or not np.array_equal(np.array(sc[:, :]), ref) or \
+            not np.array_equal(np.array(sc[1:n, :]), ref[1:n]):
+        obs["problems"].append(("flat", "meta-less .cbin reads differ from the meta-less .bin"))
+    got = sc.decompress_file(keep_original=True, out=d / "rt.bin", n_threads=1)
+    if Path(got).read_bytes() != D.tobytes():
+        obs["problems"].append(("flat", "meta-less compress + decompress is not the original binary"))
+    b.unlink()
+    got = sc.decompress_to_scratch()
+    if not _same_path(got, b) or b.read_bytes() != D.tobytes():
+        obs["problems"].append(("flat", "meta-less decompress_to_scratch() did not recreate flat.bin"))
+    try:
+        got = sc.decompress_to_scratch(scratch_dir=d / "scr")
+        if Path(got).read_bytes() != D.tobytes():
+            obs["problems"].append(("flat", "meta-less decompress_to_scratch(dir) is not the original binary"))
+    except TypeError as e:
+        obs["problems"].append(("nometa_scratch", "decompress_to_scratch(scratch_dir) of a reader without meta file raised %r" % (e,)))
+    # the caller announces fewer samples than the file holds: the .bin opens with the announced count
+    # (Reader.open: mismatch with meta None); the .cbin must behave the same
+    if n >= 2:
+        kw2 = dict(kw, ns=n - 1)
+        try:
+            sb = spikeglx.Reader(b, **kw2)
+            shape_b = tuple(sb.shape)
+            sb.close()
+        except Exception as e:
+            shape_b = type(e).__name__
+        try:
+            sc2 = spikeglx.Reader(out, **kw2)
+            shape_c = tuple(sc2.shape)
+            sc2.close()
+        except Exception as e:
+            shape_c = type(e).__name__
+        obs["short"] = [str(shape_b), str(shape_c)]
+        if shape_b != (n - 1, ncx):
+            obs["problems"].append(("flat", "Reader(bin, ns=n-1) without meta gives %s" % (shape_b,)))
+        if shape_c != shape_b:
+            obs["problems"].append(("nometa_cbin_ns", "without meta file and with ns=n-1 given, Reader(.bin) gives %s but "
+                                    "Reader(.cbin) gives %s" % (shape_b, shape_c)))
+    for r in (sr, sc):
+        r.close()
+    return obs
+
+
+def options_case(tdir, rng, variant):
+    """Oracle only (outside the Coq codec model, which follows the default options): other dtypes, mtscomp options,
+    an imec meta file with geometry, explicit meta_file= / ch_file= companions kept in another folder."""
+    spikeglx, mtscomp = _imports()
+    d = Path(tdir)
+    d.mkdir(parents=True, exist_ok=True)
+    P = []
+    nprng = np.random.RandomState(rng.randrange(2 ** 31))
+    if variant in ("int32", "uint16", "float32"):
+        nc, n, cs = 3, 11, 4
+        info = np.iinfo(variant) if variant != "float32" else None
+        D = nprng.randint(info.min, info.max, size=(n, nc), dtype=np.int64).astype(variant) if info else \
+            nprng.randint(-1000, 1000, size=(n, nc)).astype("float32")
+        b = d / "t.bin"
+        D.tofile(b)
+        kw = dict(nc=nc, ns=n, fs=FS, dtype=variant)
+        sr = spikeglx.Reader(b, **kw)
+        out = sr.compress_file(keep_original=True, chunk_duration=cs / FS, n_threads=1)
+        sc = spikeglx.Reader(out, **kw)
+        if not np.array_equal(np.array(sc._raw[0:n]), D) or np.array(sc._raw[0:n]).dtype != D.dtype or \
+                not np.array_equal(np.array(sc[2:9, :]), np.array(sr[2:9, :])):
+            P.append("dtype %s: .cbin reads differ from the .bin" % variant)
+        got = sc.decompress_file(keep_original=True, out=d / "rt.bin", n_threads=1)
+        if Path(got).read_bytes() != D.tobytes():
+            P.append("dtype %s: compress + decompress is not the original binary" % variant)
+    elif variant.startswith("opt_"):
+        nc, n, cs = 4, 13, 5
+        D = gen_data(rng, n, nc, "full")
+        b = d / "o.nidq.bin"
+        D.tofile(b)
+        b.with_suffix(".meta").write_text(meta_text(nc, n, 1))
+        opts = {"opt_spatial": dict(do_spatial_diff=True), "opt_notime": dict(do_time_diff=False),
+                "opt_corder": dict(chunk_order="C"), "opt_level9": dict(comp_level=9),
+                "opt_both": dict(do_spatial_diff=True, do_time_diff=True, chunk_order="C")}[variant]
+        sr = spikeglx.Reader(b)
+        out = sr.compress_file(keep_original=True, chunk_duration=cs / FS, n_threads=2, **opts)
+        sc = spikeglx.Reader(out)
+        if tuple(sc.shape) != (n, nc) or not np.array_equal(np.array(sc._raw[0:n]), D) or \
+                not np.array_equal(np.array(sc[3:11, :]), np.array(sr[3:11, :])):
+            P.append("mtscomp options %s: .cbin reads differ from the .bin" % opts)
+        got = sc.decompress_file(keep_original=True, out=d / "rt.bin")
+        if Path(got).read_bytes() != D.tobytes():
+            P.append("mtscomp options %s: compress + decompress is not the original binary" % opts)
+    elif variant == "imec_meta":
+        nc, n, cs = 385, 7, 3
+        D = nprng.randint(-32768, 32768, size=(n, nc)).astype(np.int16)
+        b = d / "s_g0_t0.imec.ap.bin"
+        D.tofile(b)
+        b.with_suffix(".meta").write_text(imec_meta_text(n))
+        for sort in (True, False):
+            sr = spikeglx.Reader(b, sort=sort)
+            if sr.geometry is None:
+                P.append("imec meta: no geometry")
+            if not b.with_suffix(".cbin").exists():
+                sr.compress_file(keep_original=True, chunk_duration=cs / FS, n_threads=1)
+            sc = spikeglx.Reader(b.with_suffix(".cbin"), sort=sort)
+            sm = spikeglx.Reader(b.with_suffix(".meta"), sort=sort)
+            for r in (sc, sm):
+                if tuple(r.shape) != (n, nc) or not np.array_equal(np.array(r[:, :]), np.array(sr[:, :])) or \
+                        not np.array_equal(np.array(r[2:5, 3:380]), np.array(sr[2:5, 3:380])):
+                    P.append("imec meta (sort=%s): reads through %s differ from the .bin" % (sort, Path(r.file_bin).suffix))
+            x, sy = sc.read(nsel=slice(0, n), sync=True)
+            x0, sy0 = sr.read(nsel=slice(0, n), sync=True)
+            if not np.array_equal(x, x0) or not np.array_equal(sy, sy0):
+                P.append("imec meta (sort=%s): read(sync=True) differs between .bin and .cbin" % sort)
+            for r in (sr, sc, sm):
+                r.close()
+    elif variant == "explicit_companions":
+        nc, n, cs = 3, 11, 4
+        D = gen_data(rng, n, nc, "full")
+        b = d / "data" / "rec.nidq.bin"
+        (d / "data").mkdir()
+        (d / "elsewhere").mkdir()
+        D.tofile(b)
+        mf = d / "elsewhere" / "other_name.meta"
+        mf.write_text(meta_text(nc, n, 1))
+        sr = spikeglx.Reader(b, meta_file=mf)
+        if tuple(sr.shape) != (n, nc) or sr.file_meta_data != mf:
+            P.append("explicit meta_file: not used")
+        out = sr.compress_file(keep_original=False, chunk_duration=cs / FS, n_threads=1)
+        chf = d / "elsewhere" / "other_name.ch"
+        shutil.move(str(Path(out).with_suffix(".ch")), str(chf))
+        sc = spikeglx.Reader(out, meta_file=mf, ch_file=chf)
+        if tuple(sc.shape) != (n, nc) or not np.array_equal(np.array(sc._raw[0:n]), D):
+            P.append("explicit meta_file / ch_file: the compressed recording does not read back")
+        if sc.verify_hash() is not True:
+            P.append("explicit ch_file: verify_hash is not True")
+        got = sc.decompress_to_scratch(scratch_dir=d / "scr")
+        if Path(got).read_bytes() != D.tobytes() or not (d / "scr" / "rec.nidq.meta").exists():
+            P.append("explicit companions: decompress_to_scratch is not the original binary + meta copy")
+        got = sc.decompress_file(keep_original=False, n_threads=1)
+        if Path(got).read_bytes() != D.tobytes() or chf.exists() or Path(out).exists() or not mf.exists():
+            P.append("explicit companions: in-place decompression did not remove exactly the .cbin and the given .ch")
+        if tuple(sc.shape) != (n, nc) or not sc.is_open or not np.array_equal(np.array(sc._raw[0:n]), D):
+            P.append("explicit companions: reader not open on the new binary after in-place decompression")
+        sc.close()
+    return {"problems": [("options", p) for p in P]}
+
+
+# --------------------------------------------------------------------------
 # a "world": reference streams for two recordings x two chunk configurations
 # --------------------------------------------------------------------------
 class World:
@@ -1176,6 +1363,7 @@ def _exercise_in_child(ctx, root):
             code = 3
         finally:
             sys_stdout_flush()
+            _save_coverage()
             os._exit(code)
     t0 = time.time()
     status = None
@@ -1208,6 +1396,18 @@ def _exercise_in_child(ctx, root):
         what = "the process exercising the implementation ended abnormally (exit %d) on this case" % os.WEXITSTATUS(status)
     ctx.fail(what, desc, {"kind": "interpreter_crash"})
     return empty
+
+
+def _save_coverage():
+    """tools/cov.py runs the check under coverage.py; a child that leaves through os._exit must save its data itself."""
+    try:
+        import coverage
+        cov = coverage.Coverage.current()
+        if cov is not None:
+            cov.stop()
+            cov.save()
+    except Exception:
+        pass
 
 
 def sys_stdout_flush():
@@ -1382,6 +1582,39 @@ def _exercise(ctx, root):
                                         "final": obs["final"]})
                 gc.collect()
             shutil.rmtree(wd, ignore_errors=True)
+        # ------------------------------------------------------------ meta-less flat binaries; option variants
+        flat_shapes = [(384, 1), (384, 3), (385, 1), (385, 3), (385, 384), (3, 11), (1, 768), (2, 385), (5, 77), (3, 128)]
+        if ctx.thorough():
+            flat_shapes += [(384, 385), (385, 768), (7, 55), (1, 770), (1, 769), (6, 64), (10, 77)]
+        for i, (ncx, n) in enumerate(flat_shapes):
+            D = gen_data(rng, n, ncx, rng.choice(["full", "small"]))
+            cs = rng.choice([1, 2, 3]) if n < 50 else rng.choice([50, 97, 128])
+            d = root / ("flat%d" % i)
+            desc = {"kind": "flat", "nc": ncx, "n": n, "chunk_samples": cs}
+            obs = guarded(ctx, "meta-less reader raised", desc, {"kind": "flat_exception"},
+                          lambda: flat_case(d, ncx, n, D, cs))
+            shutil.rmtree(d, ignore_errors=True)
+            if obs is None:
+                continue
+            for tag, p in obs["problems"]:
+                ctx.fail(p, desc, {"kind": tag})
+            inputs.append([4, obs["size"]])
+            outputs.append(obs["guess"])
+            descr.append(desc)
+            dist["flat"] = dist.get("flat", 0) + 1
+            nontrivial.add(("flat", ncx, n))
+        for i, variant in enumerate(["int32", "uint16", "float32", "opt_spatial", "opt_notime", "opt_corder", "opt_level9",
+                                     "opt_both", "imec_meta", "explicit_companions"]):
+            d = root / ("opt%d" % i)
+            desc = {"kind": "options", "variant": variant}
+            obs = guarded(ctx, "option variant %s raised" % variant, desc, {"kind": "options_exception"},
+                          lambda: options_case(d, rng, variant))
+            shutil.rmtree(d, ignore_errors=True)
+            if obs is None:
+                continue
+            for tag, p in obs["problems"]:
+                ctx.fail(p, desc, {"kind": tag})
+            dist["options_" + variant] = 1
         # ------------------------------------------------------------ one Reader object, sequences of calls
         for i, (f0, ops) in enumerate(gen_object_sequences(ctx)):
             cs = rng.choice([2, 3, 4, 5])
@@ -1472,6 +1705,17 @@ def replay(ctx, data):
                 0, enc_codec_in(inp["nc"], inp["ns"], inp["chunk_samples"], D), enc_codec_out(obs))])
             print("kernel-evaluated model agrees with implementation:", not ids)
             rc = 1 if (obs["problems"] or ids) else 0
+        elif inp.get("kind") == "flat":
+            D = gen_data(ctx.rng, inp["n"], inp["nc"], "full")
+            obs = flat_case(root / "f", inp["nc"], inp["n"], D, inp["chunk_samples"])
+            print("implementation:", {k: obs[k] for k in obs if k != "problems"}, "\n problems", obs["problems"])
+            ids = common.coq_mismatches(PROP, HEADER, [common.flat_cases_term(0, [4, obs["size"]], obs["guess"])])
+            print("kernel-evaluated model agrees with implementation:", not ids)
+            rc = 1 if (obs["problems"] or ids) else 0
+        elif inp.get("kind") == "options":
+            obs = options_case(root / "o", ctx.rng, inp["variant"])
+            print("problems", obs["problems"])
+            rc = 1 if obs["problems"] else 0
         elif inp.get("kind") == "object":
             D = gen_data(ctx.rng, inp["n"], inp["nc"], "full")
             f0 = [".bin", ".cbin"].index(inp["start"]) + 1
